@@ -1,8 +1,297 @@
 /-
-  C11 — property theorems (only `theorem C11_*` statements and non-vacuity examples live here;
-  helper lemmas go to CedarGoProofs/Lemmas/).
+  C11 — Value equality, hashing, sets and records obey their algebraic laws.
+  Only `theorem C11_*` statements and non-vacuity examples live here; helper lemmas are in
+  CedarGoProofs/Lemmas/C11*.lean.
+
+  Reading guide.  `Value.beq` is the model of `types.Value.Equal` (Model/Value.lean); `newSet hash l` is
+  the model of `types.NewSet(l...)` with Go's open-addressed table (Model/SetImpl.lean) over an ARBITRARY
+  hash function `hash`; the only thing assumed about it is `C11.HashRespectsEq hash`
+  (equal values hash equally), so every theorem holds for every collision pattern.
+  `l.length < 2^64` is not a restriction of the property: Go slice lengths are `int`.
 -/
-import CedarGo.Model.Fold
+import CedarGoProofs.Lemmas.C11Hash
+import CedarGoProofs.Lemmas.C11Rec
+
 namespace CedarGo
+open C11
+
+/-! ## Equality is an equivalence relation that separates kinds -/
+
+theorem C11_beq_refl (v : Value) : Value.beq v v = true := beq_refl v
+
+theorem C11_beq_symm (a b : Value) : Value.beq a b = Value.beq b a := beq_symm a b
+
+theorem C11_beq_trans (a b c : Value) (hab : Value.beq a b = true) (hbc : Value.beq b c = true) :
+    Value.beq a c = true := beq_trans a b c hab hbc
+
+/-- equal values have the same kind (values of different types are never equal) -/
+theorem C11_beq_kind (a b : Value) (h : Value.beq a b = true) : a.kind = b.kind := beq_kind a b h
+
+example : Value.beq (mkSet [.long 1, .bool true, .long 1]) (mkSet [.bool true, .long 1]) = true := by decide +kernel
+example : Value.beq (.bool true) (.long 1) = false ∧ Value.beq (.decimal 1) (.duration 1) = false := by decide +kernel
+
+/-! ## Probe termination -/
+
+/-- the probe loops of `NewSet` and `Contains` (`for { … hash++ }`) stop within `size + 1` steps on every
+    table with fewer than 2^64 entries, whatever the keys are: the fuel of the model is never exhausted -/
+theorem C11_probe_terminates (t : Table) (hl : t.length < 2 ^ 64) (v : Value) (h : UInt64) :
+    probe t v (t.length + 1) h ≠ .exhausted := probe_not_exhausted hl v h
+
+example : probe [(18446744073709551615, .long 1), (0, .long 2)] (.long 3) 3 18446744073709551615 = .empty 1 := by
+  decide +kernel
+
+/-! ## Sets built by `NewSet` -/
+
+/-- the hypotheses of the theorems below are satisfiable: equality-respecting hashes exist (the real one is
+    `C11_goHash_respects_eq` further down), and they are not all injective -/
+example : HashRespectsEq constHash ∧ constHash (.long 1) = constHash (.bool true) := ⟨fun _ _ _ => rfl, rfl⟩
+example : ([Value.bool true, .long 1, .long 1] : List Value).length < 2 ^ 64 := by decide
+
+/-- membership: `NewSet(l...).Contains(v)` iff `v` equals some element of `l` -/
+theorem C11_newSet_mem (hash : Value → UInt64) (hr : HashRespectsEq hash) (l : List Value)
+    (hl : l.length < 2 ^ 64) (v : Value) :
+    (newSet hash l).contains hash v = true ↔ ∃ w ∈ l, Value.beq v w = true :=
+  newSet_contains_iff hr l hl v
+
+/-- length: `Len()` is the number of distinct members — the length of EVERY duplicate-free enumeration
+    of the members of `l`; `dedupV [] l` (the member list of `mkSet l`) is one such enumeration -/
+theorem C11_newSet_len (hash : Value → UInt64) (hr : HashRespectsEq hash) (l : List Value) (hl : l.length < 2 ^ 64) :
+    (∀ ds : List Value, NoDupR Value.beq ds →
+        (∀ v, (∃ w ∈ ds, Value.beq v w = true) ↔ ∃ w ∈ l, Value.beq v w = true) →
+        (newSet hash l).len = ds.length) ∧
+    NoDupR Value.beq (dedupV [] l) ∧
+    (∀ v, (∃ w ∈ dedupV [] l, Value.beq v w = true) ↔ ∃ w ∈ l, Value.beq v w = true) := by
+  obtain ⟨wf, hv⟩ := newSet_spec hr l hl
+  refine ⟨fun ds hds hmem => ?_, dedupV_noDup l, dedupV_mem l⟩
+  have hlen : (newSet hash l).len = (dedupV [] l).length := by
+    rw [← hv]; simp [SetImpl.len, vals]
+  rw [hlen]
+  apply length_eq_of_sub_sub beq_symm beq_trans (dedupV_noDup l) hds
+  · intro x hx
+    exact (hmem x).mpr ((dedupV_mem l x).mp ⟨x, hx, beq_refl x⟩)
+  · intro x hx
+    exact (dedupV_mem l x).mpr ((hmem x).mp ⟨x, hx, beq_refl x⟩)
+
+/-- equality: two sets built from sequences are `Equal` exactly when the sequences have the same members —
+    regardless of order, duplicates and of how the members collide in the table -/
+theorem C11_newSet_equal_iff (hash : Value → UInt64) (hr : HashRespectsEq hash) (l₁ l₂ : List Value)
+    (h₁ : l₁.length < 2 ^ 64) (h₂ : l₂.length < 2 ^ 64) :
+    (newSet hash l₁).equal hash (newSet hash l₂) = true ↔
+      ∀ v, (∃ w ∈ l₁, Value.beq v w = true) ↔ (∃ w ∈ l₂, Value.beq v w = true) := by
+  rw [equal_iff hr (newSet_spec hr l₁ h₁).1 (newSet_spec hr l₂ h₂).1]
+  constructor
+  · intro h v
+    rw [← newSet_contains_iff hr l₁ h₁ v, ← newSet_contains_iff hr l₂ h₂ v, h v]
+  · intro h v
+    rw [Bool.eq_iff_iff, newSet_contains_iff hr l₁ h₁ v, newSet_contains_iff hr l₂ h₂ v]
+    exact h v
+
+/-- order and duplicates are irrelevant: any two argument lists with the same elements give `Equal` sets -/
+theorem C11_newSet_order_dup_irrelevant (hash : Value → UInt64) (hr : HashRespectsEq hash) (l₁ l₂ : List Value)
+    (h₁ : l₁.length < 2 ^ 64) (h₂ : l₂.length < 2 ^ 64) (hsame : ∀ x, x ∈ l₁ ↔ x ∈ l₂) :
+    (newSet hash l₁).equal hash (newSet hash l₂) = true ∧ (newSet hash l₁).len = (newSet hash l₂).len := by
+  have hm : ∀ v, (∃ w ∈ l₁, Value.beq v w = true) ↔ (∃ w ∈ l₂, Value.beq v w = true) := fun v =>
+    ⟨fun ⟨w, hw, hb⟩ => ⟨w, (hsame w).mp hw, hb⟩, fun ⟨w, hw, hb⟩ => ⟨w, (hsame w).mpr hw, hb⟩⟩
+  refine ⟨(C11_newSet_equal_iff hash hr l₁ l₂ h₁ h₂).mpr hm, ?_⟩
+  obtain ⟨hlen₁, _, _⟩ := C11_newSet_len hash hr l₁ h₁
+  obtain ⟨_, hnd, hmem₂⟩ := C11_newSet_len hash hr l₂ h₂
+  obtain ⟨hlen₂, _, _⟩ := C11_newSet_len hash hr l₂ h₂
+  rw [hlen₁ (dedupV [] l₂) hnd (fun v => (hmem₂ v).trans (hm v).symm), hlen₂ (dedupV [] l₂) hnd hmem₂]
+
+/-- `Set.Equal` on any two well-formed sets is extensional equality (DESIGN `set_equal_iff`) -/
+theorem C11_set_equal_iff (hash : Value → UInt64) (hr : HashRespectsEq hash) (s b : SetImpl)
+    (ws : SetWF hash s) (wb : SetWF hash b) :
+    s.equal hash b = true ↔ ∀ v, s.contains hash v = b.contains hash v := equal_iff hr ws wb
+
+/-- `SetWF` is inhabited by a non-empty colliding table -/
+example : SetWF goHash (newSet goHash [.bool true, .long 1, .decimal 1]) :=
+  (newSet_spec goHash_respects_eq _ (by decide)).1
+
+/-- every set built by `NewSet` is well-formed (table invariant + cached hash) -/
+theorem C11_newSet_wf (hash : Value → UInt64) (hr : HashRespectsEq hash) (l : List Value) (hl : l.length < 2 ^ 64) :
+    SetWF hash (newSet hash l) := (newSet_spec hr l hl).1
+
+/-- subset operations of the evaluator (`containsAll`, `containsAny`) on sets built from sequences -/
+theorem C11_newSet_subset_ops (hash : Value → UInt64) (hr : HashRespectsEq hash) (l₁ l₂ : List Value)
+    (h₁ : l₁.length < 2 ^ 64) (h₂ : l₂.length < 2 ^ 64) :
+    ((newSet hash l₁).containsAll hash (newSet hash l₂) = true ↔
+        ∀ x ∈ l₂, ∃ w ∈ l₁, Value.beq x w = true) ∧
+    ((newSet hash l₁).containsAny hash (newSet hash l₂) = true ↔
+        ∃ x ∈ l₂, ∃ w ∈ l₁, Value.beq x w = true) := by
+  have w₁ := (newSet_spec hr l₁ h₁).1
+  have w₂ := (newSet_spec hr l₂ h₂).1
+  constructor
+  · rw [containsAll_iff hr w₁ w₂]
+    constructor
+    · intro h x hx
+      exact (newSet_contains_iff hr l₁ h₁ x).mp (h x ((newSet_contains_iff hr l₂ h₂ x).mpr ⟨x, hx, beq_refl x⟩))
+    · intro h v hv
+      obtain ⟨x, hx, hvx⟩ := (newSet_contains_iff hr l₂ h₂ v).mp hv
+      obtain ⟨w, hw, hxw⟩ := h x hx
+      exact (newSet_contains_iff hr l₁ h₁ v).mpr ⟨w, hw, beq_trans _ _ _ hvx hxw⟩
+  · rw [containsAny_iff hr w₁ w₂]
+    constructor
+    · rintro ⟨v, hv₂, hv₁⟩
+      obtain ⟨x, hx, hvx⟩ := (newSet_contains_iff hr l₂ h₂ v).mp hv₂
+      obtain ⟨w, hw, hvw⟩ := (newSet_contains_iff hr l₁ h₁ v).mp hv₁
+      exact ⟨x, hx, w, hw, beq_trans _ _ _ (by rw [beq_symm]; exact hvx) hvw⟩
+    · rintro ⟨x, hx, w, hw, hxw⟩
+      exact ⟨x, (newSet_contains_iff hr l₂ h₂ x).mpr ⟨x, hx, beq_refl x⟩,
+        (newSet_contains_iff hr l₁ h₁ x).mpr ⟨w, hw, hxw⟩⟩
+
+/-- the hash function is unobservable: any two equality-respecting hash functions (e.g. the real one and
+    a constant one) give the same `Len`, `Contains`, `Equal`, `containsAll`, `containsAny` -/
+theorem C11_hash_unobservable (hash hash' : Value → UInt64) (hr : HashRespectsEq hash) (hr' : HashRespectsEq hash')
+    (l₁ l₂ : List Value) (h₁ : l₁.length < 2 ^ 64) (h₂ : l₂.length < 2 ^ 64) (v : Value) :
+    (newSet hash l₁).len = (newSet hash' l₁).len ∧
+    (newSet hash l₁).contains hash v = (newSet hash' l₁).contains hash' v ∧
+    (newSet hash l₁).equal hash (newSet hash l₂) = (newSet hash' l₁).equal hash' (newSet hash' l₂) ∧
+    (newSet hash l₁).containsAll hash (newSet hash l₂) = (newSet hash' l₁).containsAll hash' (newSet hash' l₂) ∧
+    (newSet hash l₁).containsAny hash (newSet hash l₂) = (newSet hash' l₁).containsAny hash' (newSet hash' l₂) := by
+  refine ⟨?_, ?_, ?_, ?_, ?_⟩
+  · obtain ⟨_, hnd, hmem⟩ := C11_newSet_len hash hr l₁ h₁
+    rw [(C11_newSet_len hash hr l₁ h₁).1 _ hnd hmem, (C11_newSet_len hash' hr' l₁ h₁).1 _ hnd hmem]
+  · rw [Bool.eq_iff_iff, C11_newSet_mem hash hr l₁ h₁, C11_newSet_mem hash' hr' l₁ h₁]
+  · rw [Bool.eq_iff_iff, C11_newSet_equal_iff hash hr l₁ l₂ h₁ h₂, C11_newSet_equal_iff hash' hr' l₁ l₂ h₁ h₂]
+  · rw [Bool.eq_iff_iff, (C11_newSet_subset_ops hash hr l₁ l₂ h₁ h₂).1, (C11_newSet_subset_ops hash' hr' l₁ l₂ h₁ h₂).1]
+  · rw [Bool.eq_iff_iff, (C11_newSet_subset_ops hash hr l₁ l₂ h₁ h₂).2, (C11_newSet_subset_ops hash' hr' l₁ l₂ h₁ h₂).2]
+
+/-! ## Refinement: the list-based set operations of the evaluator model are the table operations -/
+
+/-- `CedarGo.eval` represents `NewSet(l...)` by the list value `mkSet l = .set (dedupV [] l)` and computes
+    `.contains` by `Value.memL`, `==` by `Value.beq`, `.containsAll/.containsAny` by `List.all/any ∘ memL`.
+    For every equality-respecting hash these are exactly the results of the open-addressed table:
+    (1) the table holds precisely the member list of `mkSet l` (in reverse insertion order), so `Len` is its length;
+    (2)–(5) `Contains`, `Equal`, `containsAll`, `containsAny` coincide — both on the `mkSet` lists and on raw
+    argument lists (a `.set xs` value denotes `NewSet(xs...)`). -/
+theorem C11_set_refines_list (hash : Value → UInt64) (hr : HashRespectsEq hash) (l₁ l₂ : List Value)
+    (h₁ : l₁.length < 2 ^ 64) (h₂ : l₂.length < 2 ^ 64) (v : Value) :
+    mkSet l₁ = .set (newSet hash l₁).slice.reverse ∧
+    (newSet hash l₁).len = (dedupV [] l₁).length ∧
+    (newSet hash l₁).contains hash v = Value.memL v l₁ ∧
+    (newSet hash l₁).contains hash v = Value.memL v (dedupV [] l₁) ∧
+    (newSet hash l₁).equal hash (newSet hash l₂) = Value.beq (.set l₁) (.set l₂) ∧
+    (newSet hash l₁).equal hash (newSet hash l₂) = Value.beq (mkSet l₁) (mkSet l₂) ∧
+    (newSet hash l₁).containsAll hash (newSet hash l₂) = l₂.all (fun x => Value.memL x l₁) ∧
+    (newSet hash l₁).containsAll hash (newSet hash l₂) = (dedupV [] l₂).all (fun x => Value.memL x (dedupV [] l₁)) ∧
+    (newSet hash l₁).containsAny hash (newSet hash l₂) = l₂.any (fun x => Value.memL x l₁) ∧
+    (newSet hash l₁).containsAny hash (newSet hash l₂) = (dedupV [] l₂).any (fun x => Value.memL x (dedupV [] l₁)) := by
+  obtain ⟨_, hv₁⟩ := newSet_spec hr l₁ h₁
+  have hmemD : ∀ l : List Value, ∀ x, Value.memL x (dedupV [] l) = Value.memL x l := fun l x => by
+    rw [Bool.eq_iff_iff, memL_iff, memL_iff]; exact dedupV_mem l x
+  have hsame : ∀ l : List Value, ∀ x, (∃ w ∈ dedupV [] l, Value.beq x w = true) ↔ ∃ w ∈ l, Value.beq x w = true :=
+    fun l x => dedupV_mem l x
+  have hall : (newSet hash l₁).containsAll hash (newSet hash l₂) = l₂.all (fun x => Value.memL x l₁) := by
+    rw [Bool.eq_iff_iff, (C11_newSet_subset_ops hash hr l₁ l₂ h₁ h₂).1]
+    simp [memL_iff]
+  have hany : (newSet hash l₁).containsAny hash (newSet hash l₂) = l₂.any (fun x => Value.memL x l₁) := by
+    rw [Bool.eq_iff_iff, (C11_newSet_subset_ops hash hr l₁ l₂ h₁ h₂).2]
+    simp [memL_iff]
+  have heq : (newSet hash l₁).equal hash (newSet hash l₂) = Value.beq (.set l₁) (.set l₂) := by
+    rw [Bool.eq_iff_iff, C11_newSet_equal_iff hash hr l₁ l₂ h₁ h₂, beq_set_iff_same]
+  refine ⟨?_, ?_, newSet_contains_eq_memL hr l₁ h₁ v, ?_, heq, ?_, hall, ?_, hany, ?_⟩
+  · simp only [mkSet, SetImpl.slice]; rw [← hv₁]; rfl
+  · rw [← hv₁]; simp [SetImpl.len, vals]
+  · rw [hmemD]; exact newSet_contains_eq_memL hr l₁ h₁ v
+  · rw [heq, Bool.eq_iff_iff, beq_set_iff_same, mkSet, mkSet, beq_set_iff_same]
+    exact ⟨fun h x => by rw [hsame, hsame]; exact h x, fun h x => by rw [← hsame l₁, ← hsame l₂]; exact h x⟩
+  · rw [hall, Bool.eq_iff_iff]
+    simp only [List.all_eq_true, hmemD, memL_iff]
+    constructor
+    · intro h x hx
+      have hx' : x ∈ l₂ := by rcases dedupV_sub l₂ [] x hx with h | h; cases h; exact h
+      exact h x hx'
+    · intro h x hx
+      obtain ⟨w, hw, hxw⟩ := dedupV_sup l₂ [] x (Or.inr hx)
+      obtain ⟨w', hw', hb⟩ := h w hw
+      exact ⟨w', hw', beq_trans _ _ _ hxw hb⟩
+  · rw [hany, Bool.eq_iff_iff]
+    simp only [List.any_eq_true, hmemD, memL_iff]
+    constructor
+    · rintro ⟨x, hx, w', hw', hb⟩
+      obtain ⟨w, hw, hxw⟩ := dedupV_sup l₂ [] x (Or.inr hx)
+      exact ⟨w, hw, w', hw', beq_trans _ _ _ (by rw [beq_symm]; exact hxw) hb⟩
+    · rintro ⟨x, hx, w', hw', hb⟩
+      have hx' : x ∈ l₂ := by rcases dedupV_sub l₂ [] x hx with h | h; cases h; exact h
+      exact ⟨x, hx', w', hw', hb⟩
+
+/-! ## Records -/
+
+/-- a record equals another exactly when they have the same keys with equal values.  Evaluator model:
+    `mkRecord kvs` is `NewRecord` of the Go map built by assigning `kvs` in order (`lastGet` = the value the map
+    holds for a key); `optBeq` is "both absent, or both present and Equal". -/
+theorem C11_record_equal_iff (kvs₁ kvs₂ : List (String × Value)) :
+    Value.beq (mkRecord kvs₁) (mkRecord kvs₂) = true ↔ ∀ q, optBeq (lastGet q kvs₁) (lastGet q kvs₂) = true := by
+  obtain ⟨l₁, e₁, s₁, g₁⟩ := mkRecord_spec kvs₁
+  obtain ⟨l₂, e₂, s₂, g₂⟩ := mkRecord_spec kvs₂
+  rw [e₁, e₂, beq_record, beqKV_iff_sorted l₁ l₂ s₁ s₂]
+  simp only [g₁, g₂]
+
+/-- the same for any two key-sorted attribute lists (the well-formedness predicate `SortedKeys` is decidable and
+    holds of everything `mkRecord` builds) -/
+theorem C11_record_equal_iff_sorted (a b : List (String × Value)) (ha : SortedKeys a) (hb : SortedKeys b) :
+    Value.beq (.record a) (.record b) = true ↔ ∀ q, optBeq (kvGet q a) (kvGet q b) = true := by
+  rw [beq_record]; exact beqKV_iff_sorted a b ha hb
+
+theorem C11_mkRecord_sorted (kvs : List (String × Value)) :
+    ∃ l, mkRecord kvs = .record l ∧ SortedKeys l ∧ ∀ q, kvGet q l = lastGet q kvs := mkRecord_spec kvs
+
+/-- Go-map model of `types.Record` (`RecImpl`: unordered map + cached FNV hash over the sorted keys, `Equal` =
+    length, cached hash, one-directional lookup loop): for every equality-respecting value hash, `Equal` holds
+    exactly when the two maps have the same keys with equal values -/
+theorem C11_recImpl_equal_iff (hash : Value → UInt64) (hr : HashRespectsEq hash) (kvs₁ kvs₂ : List (String × Value)) :
+    (newRecord hash kvs₁).equal (newRecord hash kvs₂) = true ↔ ∀ q, optBeq (lastGet q kvs₁) (lastGet q kvs₂) = true := by
+  rw [recEqual_iff hr (ofList_nodup kvs₁) (ofList_nodup kvs₂) rfl rfl]
+  simp only [newRecord, ofList_get]
+
+/-- refinement for records: the key-sorted list model of the evaluator agrees with the Go-map model on
+    equality and on attribute lookup -/
+theorem C11_record_refines_list (hash : Value → UInt64) (hr : HashRespectsEq hash) (kvs₁ kvs₂ : List (String × Value)) :
+    (newRecord hash kvs₁).equal (newRecord hash kvs₂) = Value.beq (mkRecord kvs₁) (mkRecord kvs₂) ∧
+    ∃ l, mkRecord kvs₁ = .record l ∧ ∀ q, (newRecord hash kvs₁).m.get q = kvGet q l := by
+  refine ⟨?_, ?_⟩
+  · rw [Bool.eq_iff_iff, C11_recImpl_equal_iff hash hr, C11_record_equal_iff]
+  · obtain ⟨l, e, _, g⟩ := mkRecord_spec kvs₁
+    exact ⟨l, e, fun q => by rw [g q]; exact ofList_get kvs₁ q⟩
+
+example : Value.beq (mkRecord [("b", .long 2), ("a", .long 1), ("a", .long 3)]) (mkRecord [("a", .long 3), ("b", .long 2)]) = true ∧
+    Value.beq (mkRecord [("a", .long 1)]) (mkRecord [("a", .bool true)]) = false ∧
+    (newRecord goHash [("b", .long 2), ("a", .long 1), ("a", .long 3)]).equal (newRecord goHash [("a", .long 3), ("b", .long 2)]) = true ∧
+    (newRecord goHash [("a", .long 1)]).hashVal = (newRecord goHash [("a", .bool true)]).hashVal ∧
+    (newRecord goHash [("a", .long 1)]).equal (newRecord goHash [("a", .bool true)]) = false := by decide +kernel
+
+example : SortedKeys [("a", Value.long 1), ("b", .long 2)] := by decide +kernel
+
+/-! ## The real hash functions -/
+
+/-- `goHash` (the transcription of every `hash()` method of types/*.go) gives equal values equal hashes,
+    so all theorems above apply to the real `types.Set` — and so do the deliberately bad ones run by the driver -/
+theorem C11_goHash_respects_eq : HashRespectsEq goHash := goHash_respects_eq
+
+theorem C11_badHashes_respect_eq : HashRespectsEq kindHash ∧ HashRespectsEq constHash ∧ HashRespectsEq wrapHash :=
+  ⟨kindHash_respects_eq, constHash_respects_eq, wrapHash_respects_eq⟩
+
+/-- the hash a `types.Set` / `types.Record` caches at construction (`hashVal`, what `hash()` returns when the value
+    is later nested in another set or record) is the value-level `goHash` of the evaluator-model value -/
+theorem C11_hashVal_consistent (l : List Value) (hl : l.length < 2 ^ 64) (kvs : List (String × Value)) :
+    (newSet goHash l).hashVal = goHash (mkSet l) ∧ (newRecord goHash kvs).hashVal = goHash (mkRecord kvs) :=
+  ⟨newSet_hashVal_eq_goHash l hl, newRecord_hashVal_eq_goHash kvs⟩
+
+/-- non-vacuity: the colliding universe really collides under the real hash -/
+example : goHash (.bool true) = 1 ∧ goHash (.long 1) = 1 ∧ goHash (.decimal 1) = 1 ∧ goHash (.duration 1) = 1 ∧
+    goHash (.datetime 1) = 1 ∧ goHash (mkSet [.long 1]) = 1 ∧ goHash (mkSet [.bool true]) = 1 ∧
+    goHash (.long 0) = goHash (mkSet []) := by decide +kernel
+
+/-- non-vacuity: five mutually colliding, mutually unequal values occupy five consecutive slots; order and
+    duplicates do not matter; the same answers come out of the constant and the wrap-around hash -/
+example :
+    (newSet goHash [.bool true, .long 1, .decimal 1, .duration 1, .datetime 1, .long 1]).len = 5 ∧
+    ((newSet goHash [.bool true, .long 1, .decimal 1, .duration 1, .datetime 1]).tbl.map (·.1)) = [5, 4, 3, 2, 1] ∧
+    (newSet goHash [.bool true, .long 1, .decimal 1]).equal goHash (newSet goHash [.decimal 1, .long 1, .long 1, .bool true]) = true ∧
+    (newSet wrapHash [.bool true, .long 1, .decimal 1]).equal wrapHash (newSet wrapHash [.decimal 1, .long 1, .long 1, .bool true]) = true ∧
+    ((newSet wrapHash [.bool true, .long 1, .decimal 1]).tbl.map (·.1)) = [1, 0, 18446744073709551615] ∧
+    (newSet goHash [.bool true, .long 1]).contains goHash (.decimal 1) = false ∧
+    (newSet goHash [.bool true, .long 1]).equal goHash (newSet goHash [.bool true, .decimal 1]) = false := by
+  decide +kernel
 
 end CedarGo
